@@ -608,3 +608,44 @@ func init() {
 	old := registry["C20"].Run
 	registry["C20"].Run = func(c *Ctx) { old(c); c20T8(c) }
 }
+
+// T9: pebble's own iterator bounds. pebble's UpperBound is exclusive; the contract's Max is inclusive unless the right
+// end is open. newPebbleIterator extends the bound by one zero byte exactly when the right end is not open and a Max
+// is given: the store happens under that condition and under no stronger one (a test against RangeClose alone forgets
+// left-open/right-closed ranges: the key equal to Max disappears on pebble only).
+func c20T9(c *Ctx) {
+	r := c.R
+	r.Clause("C20-T9", "pebble's exclusive upper bound is made inclusive exactly when the right end is closed")
+	u := c.unit("C20-T9", "engine.newPebbleIterator")
+	if u == nil {
+		return
+	}
+	n := 0
+	want := c.W.Parse("!(p1.Type&common.RangeROpen > 0) && upperBound != nil")
+	for _, s := range u.Match(an.LocalStore("upperBound")) {
+		if s.RHS == nil || !strings.HasPrefix(u.C.Term(s.RHS), "append(upperBound") {
+			continue
+		}
+		n++
+		pc := u.SitePC(s)
+		// (relative to what already holds where the bound is first taken from the options)
+		pre := flow.True()
+		for _, d := range u.Match(an.LocalStore("upperBound")) {
+			if d.RHS != nil && u.C.Term(d.RHS) == "p1.Max" {
+				pre = u.SitePC(d)
+			}
+		}
+		fw, bw := flow.Implies(pc, want), flow.Implies(flow.And(want, pre), pc)
+		ok := fw.Holds && bw.Holds && fw.Undecided == "" && bw.Undecided == ""
+		r.Check("C20-T9", u.Name+": the upper bound is extended iff the right end is closed and a Max is given", u.Pos(s.Pos), ok, "pc = "+pc.String())
+		r.Check("C20-T9", u.Name+": extended by exactly one zero byte", u.Pos(s.Pos), u.C.Term(s.RHS) == "append(upperBound, 0)", u.C.Term(s.RHS))
+	}
+	r.Min("C20-T9", n, 1, "extension of pebble's upper bound")
+	r.StoreValues("C20-T9", u, an.LocalStore("upperBound"), []string{"p1.Max", "append(upperBound, 0)"}, 2)
+	r.StoreValues("C20-T9", u, an.LocalStore("lowerBound"), []string{"p1.Min"}, 1)
+}
+
+func init() {
+	old := registry["C20"].Run
+	registry["C20"].Run = func(c *Ctx) { old(c); c20T9(c) }
+}
